@@ -1,0 +1,7 @@
+//go:build !verif
+
+package rogger
+
+// verifYield marks a point at which the verification harness (build tag `verif`, see
+// verif_hook.go) can hold the calling goroutine. In normal builds it is empty and inlined away.
+func verifYield(string) {}
